@@ -1,20 +1,255 @@
 /-
-C14 — nodes are immutable, integers canonically encoded.
+C14 — allocated nodes are immutable and integers are canonically encoded.
 
-Property theorems only; helper lemmas are in `Lemmas/Alloc*.lean`.  The model is
-`ClvmModel/Alloc.lean` (transcription of `src/allocator.rs`), the reference is `RefAlloc`.
+Property theorems only; helper lemmas are in `Lemmas/Alloc*.lean`.  `treeOf a p` is the tree a
+node denotes; `nodeBytes a p` the bytes of an atom node (`smallBytes v` for an inline atom,
+the heap slice for a buffer atom); `encodeInt`/`decodeInt` the minimal two's complement
+big-endian encoding and its inverse.
 -/
-import ClvmModel.Alloc.Session
+import ClvmProofs.Lemmas.AllocStep
 
 namespace Clvm.Props.C14
 open Clvm Clvm.Alloc
 
-/-- a fresh allocator reports the counts of the historical heap-only allocator (`nil`, `one`) -/
-theorem new_counts (limit : Nat) (a : Alloc) (h : newLimited limit = .ok a) :
-    atomCount a = Gen.initGhostAtoms ∧ pairCount a = Gen.initGhostPairs ∧ heapSize a = Gen.initGhostHeap := by
-  unfold newLimited at h
+/-! ### immutability -/
+
+/-- `node_stable` for every append-only operation (`Ext` is established for each of them by the
+`refines_…` theorems of C12 and by `substr_defect_exact`) -/
+theorem node_stable (a a' : Alloc) (p : Ptr) (hI : Inv a) (hE : Ext a a') (hp : Valid a p) :
+    Valid a' p ∧ treeOf a' p = treeOf a p := ⟨hE.valid hp, hE.treeOf hI hp⟩
+
+/-- a successful node-creating operation changes no existing node -/
+theorem node_stable_op (a : Alloc) (out : Out Ptr) (ref : Except Err (Tree × RefAlloc)) (hI : Inv a)
+    (h : Refines a out ref) (p : Ptr) (hp : Valid a p) :
+    Valid out.2 p ∧ treeOf out.2 p = treeOf a p := by
+  obtain ⟨res, a'⟩ := out
+  cases res with
+  | ok q =>
+    cases ref with
+    | ok x => exact node_stable a a' p hI h.2.2.2.2 hp
+    | error e => exact absurd h (by simp [Refines])
+  | error e =>
+    cases ref with
+    | ok x => exact absurd h (by simp [Refines])
+    | error e' => rw [show a' = a from h.2]; exact ⟨hp, rfl⟩
+
+/-- … including `new_substr` inside the defect region of finding C -/
+theorem node_stable_substr_defect (a : Alloc) (v s e : Nat) (hI : Inv a) (hv : Valid a (.small v))
+    (hd : substrDefect (.small v) s e = true) (p : Ptr) (hp : Valid a p) :
+    treeOf (newSubstr a (.small v) s e).2 p = treeOf a p := by
+  by_cases hfull : atomCount a + 1 ≤ Gen.maxNumAtoms
+  · obtain ⟨a', h, _, _, _, _, _, hE⟩ := newSubstr_defect a v s e hI hv hd hfull
+    rw [h]; exact hE.treeOf hI hp
+  · unfold newSubstr
+    rw [checkAtomLimit_eq a hI, if_pos (by omega)]
+
+/-- restores to a checkpoint taken after the node was created do not change it -/
+theorem node_stable_restore (a : Alloc) (cp : Checkpoint) (hv : CpValid a cp) (p : Ptr) (hp : ValidAt cp.inner p) :
+    Valid (restoreCheckpoint a cp).2 p ∧ treeOf (restoreCheckpoint a cp).2 p = treeOf a p := by
+  rw [restoreCheckpoint_eq a cp hv]
+  exact ⟨restoredC_valid a cp hv hp, restoredC_treeOf a cp hv hp⟩
+
+theorem node_stable_restore_transparent (a : Alloc) (cp : TCheckpoint) (hv : TCpValid a cp) (p : Ptr)
+    (hp : ValidAt cp p) :
+    Valid (restoreTransparentCheckpoint a cp).2 p ∧
+      treeOf (restoreTransparentCheckpoint a cp).2 p = treeOf a p := by
+  rw [restoreTransparent_eq a cp hv]
+  exact ⟨restoredT_valid a cp hv hp, restoredT_treeOf a cp hv hp⟩
+
+/-- a node is older than a checkpoint taken while it was valid -/
+theorem valid_at_checkpoint (a : Alloc) (p : Ptr) (hp : Valid a p) : ValidAt (transparentCheckpoint a) p := hp
+
+/-- (C04, allocator level) value-preserving restore: every node older than the checkpoint keeps
+its tree, and the returned node (the old one for `NoReplace`, the replacement for `Replace`)
+denotes the tree `ret` denoted; a replaced heap atom is again a heap atom -/
+theorem maybe_restore_tree (a : Alloc) (cp : TCheckpoint) (ret : Ptr) (hI : Inv a)
+    (hv : TCpValid a cp) (hr : Valid a ret) :
+    ∃ r a', maybeRestoreWithNode a cp ret = (.ok r, a') ∧
+      match r with
+      | .aborted => a' = a
+      | .noReplace => Valid a' ret ∧ treeOf a' ret = treeOf a ret ∧
+          ∀ p, ValidAt cp p → Valid a' p ∧ treeOf a' p = treeOf a p
+      | .replace q => Valid a' q ∧ treeOf a' q = treeOf a ret ∧ (∃ i j, ret = .bytes i ∧ q = .bytes j) ∧
+          ∀ p, ValidAt cp p → Valid a' p ∧ treeOf a' p = treeOf a p := by
+  obtain ⟨r, a', h, ho⟩ := maybeRestore_ok a cp ret hI hv hr
+  refine ⟨r, a', h, ?_⟩
+  cases ho with
+  | aborted => rfl
+  | noReplace _ hw => exact ⟨hw.valid, hw.tree, hw.older⟩
+  | replace _ q hb hw => exact ⟨hw.valid, hw.tree, hb, hw.older⟩
+
+/-- full statement over histories: a slot that is valid at the end of a history from a fresh
+allocator held the same node after every earlier operation since its creation, and denotes the
+same tree as it did then (through later operations and restores to later checkpoints) -/
+theorem node_stable_history_partial (limit : Nat) (a0 : Alloc) (ops1 ops2 : List Op) (s1 sf : Session)
+    (ts1 ts2 : List (Tag × Nat × Nat × Nat)) (h0 : newLimited limit = .ok a0) (hl : Gen.initGhostHeap ≤ limit)
+    (hw1 : ∀ op ∈ ops1, op.wf) (hw2 : ∀ op ∈ ops2, op.wf)
+    (hd1 : NoDefect (Session.init a0) ops1) (h1 : (Session.init a0).run ops1 = .ok (s1, ts1))
+    (hd2 : NoDefect s1 ops2) (h2 : s1.run ops2 = .ok (sf, ts2))
+    (i : Nat) (p : Ptr) (hi : i < s1.slots.length) (hg : sf.getNode i = some p) :
+    s1.getNode i = some p ∧ treeOf sf.a p = treeOf s1.a p := by
+  have hI : Inv a0 ∧ HeapOk a0 := by
+    unfold newLimited at h0
+    split at h0
+    · cases h0
+    · cases h0
+      refine ⟨⟨Closed.nil _, ?_, ?_, ?_⟩, hl⟩
+      · show ([] : List (Nat × Nat)).length + Gen.initGhostAtoms ≤ Gen.maxNumAtoms; decide
+      · show ([] : List (Ptr × Ptr)).length + Gen.initGhostPairs ≤ Gen.maxNumPairs; decide
+      · show limit ≤ u32Max; omega
+  have hS1 := run_sinv ops1 _ (SInv.init a0 hI.1 hI.2) hw1 hd1 s1 ts1 h1
+  exact run_stable ops2 s1 hS1 hw2 hd2 sf ts2 h2 i p hi hg
+
+/-! ### contents of new nodes -/
+
+theorem new_atom_bytes (a : Alloc) (b : Bytes) (hI : Inv a) (p : Ptr) (a' : Alloc)
+    (h : newAtom a b = (.ok p, a')) : treeOf a' p = .atom b ∧ Valid a' p ∧ Inv a' := by
+  have hr := newAtom_refines a b hI
+  rw [h] at hr
+  unfold RefAlloc.newAtom at hr
+  split at hr
+  · exact absurd hr (by simp [Refines])
+  · split at hr
+    · exact absurd hr (by simp [Refines])
+    · exact ⟨hr.2.1, hr.2.2.1, hr.2.2.2.1⟩
+
+theorem new_pair_children (a : Alloc) (l r : Ptr) (hI : Inv a) (hl : Valid a l) (hr : Valid a r) (p : Ptr)
+    (a' : Alloc) (h : newPair a l r = (.ok p, a')) :
+    treeOf a' p = .pair (treeOf a l) (treeOf a r) ∧ treeOf a' l = treeOf a l ∧ treeOf a' r = treeOf a r := by
+  have hf := newPair_refines a l r hI hl hr
+  rw [h] at hf
+  unfold RefAlloc.newPair at hf
+  split at hf
+  · exact absurd hf (by simp [Refines])
+  · exact ⟨hf.2.1, hf.2.2.2.2.treeOf hI hl, hf.2.2.2.2.treeOf hI hr⟩
+
+/-! ### readers -/
+
+/-- every read API of an atom node returns the bytes it denotes -/
+theorem readers_agree (a : Alloc) (p : Ptr) (hI : Inv a) (hv : Valid a p) (hp : isAtomPtr p = true) :
+    atom a p = .ok (nodeBytes a p) ∧ atomLen a p = .ok (nodeBytes a p).length ∧
+    number a p = .ok (decodeInt (nodeBytes a p)) ∧ treeOf a p = .atom (nodeBytes a p) :=
+  ⟨atom_ok a p hI hv hp, atomLen_ok a p hI hv hp, number_ok a p hI hv hp, treeOf_atom a p hp⟩
+
+/-- **`atom_eq` agrees with byte equality**, for every combination of representations -/
+theorem atom_eq_iff (a : Alloc) (p q : Ptr) (hI : Inv a) (hvp : Valid a p) (hvq : Valid a q)
+    (hp : isAtomPtr p = true) (hq : isAtomPtr q = true) :
+    atomEq a p q = .ok (decide (nodeBytes a p = nodeBytes a q)) := atomEq_iff a p q hI hvp hvq hp hq
+
+/-- **the small-integer view exists exactly when the bytes are the minimal encoding of a value
+below 2^26** -/
+theorem small_number_iff (a : Alloc) (p : Ptr) (hI : Inv a) (hv : Valid a p) (hp : isAtomPtr p = true) (v : Nat) :
+    smallNumber a p = .ok (some v) ↔ (nodeBytes a p = encodeInt (v : Int) ∧ v < 2 ^ 26) := by
+  rw [smallNumber_ok a p hI hv hp]
+  constructor
+  · intro h
+    exact (fitsInSmallAtom_iff _ v).1 (by injection h)
+  · intro h
+    rw [(fitsInSmallAtom_iff _ v).2 h]
+
+theorem small_number_total (a : Alloc) (p : Ptr) (hI : Inv a) (hv : Valid a p) (hp : isAtomPtr p = true) :
+    ∃ r, smallNumber a p = .ok r := ⟨_, smallNumber_ok a p hI hv hp⟩
+
+/-- `fits_in_small_atom` never hits its `v[1]` index panic and decides the same predicate -/
+theorem fits_in_small_atom_iff (b : Bytes) (v : Nat) :
+    fitsInSmallAtomE b = .ok (some v) ↔ (b = encodeInt (v : Int) ∧ v < 2 ^ 26) := by
+  rw [fitsInSmallAtomE_eq]
+  constructor
+  · intro h; exact (fitsInSmallAtom_iff b v).1 (by injection h)
+  · intro h; rw [(fitsInSmallAtom_iff b v).2 h]
+
+/-- `new_atom` chooses the inline representation exactly for those byte strings -/
+theorem new_atom_inline_iff (a : Alloc) (b : Bytes) (hI : Inv a) (p : Ptr) (a' : Alloc)
+    (h : newAtom a b = (.ok p, a')) (v : Nat) : p = .small v ↔ (b = encodeInt (v : Int) ∧ v < 2 ^ 26) := by
+  unfold newAtom at h
+  rw [checkAtomLimit_eq a hI, fitsInSmallAtomE_eq] at h
+  by_cases hoom : a.u8.length + a.ghostHeap + b.length > a.heapLimit
+  · rw [if_pos hoom] at h; simp at h
+  · rw [if_neg hoom] at h
+    by_cases hfull : atomCount a + 1 > Gen.maxNumAtoms
+    · rw [if_pos hfull] at h; simp at h
+    · rw [if_neg hfull] at h
+      simp only [] at h
+      rw [← fitsInSmallAtom_iff]
+      cases hf : fitsInSmallAtom b with
+      | none =>
+        rw [hf] at h
+        simp only [Prod.mk.injEq, Except.ok.injEq] at h
+        rw [← h.1]; simp
+      | some w =>
+        rw [hf] at h
+        simp only [Prod.mk.injEq, Except.ok.injEq] at h
+        rw [← h.1]; simp
+
+/-! ### integers -/
+
+theorem len_for_value_enc (v : Nat) (h : v < 2 ^ 31) : lenForValue v = (encodeInt (v : Int)).length :=
+  lenForValue_enc v h
+
+theorem encode_roundtrip (v : Int) : decodeInt (encodeInt v) = v := decodeInt_encodeInt v
+
+theorem encode_canonical (v : Int) : canonical (encodeInt v) = true := canonical_encodeInt v
+
+theorem encode_unique (b : Bytes) (h : canonical b = true) : encodeInt (decodeInt b) = b := encodeInt_decodeInt b h
+
+/-- minimal: no byte string denoting the same integer is shorter -/
+theorem encode_minimal (b : Bytes) : (encodeInt (decodeInt b)).length ≤ b.length := encodeInt_minimal b
+
+/-- what every integer constructor guarantees, derived from its refinement of `RefAlloc.newInt` -/
+theorem int_stored (a : Alloc) (v : Int) (out : Out Ptr) (h : Refines a out ((abs a).newInt v))
+    (p : Ptr) (a' : Alloc) (ho : out = (.ok p, a')) :
+    atom a' p = .ok (encodeInt v) ∧ number a' p = .ok v := by
+  subst ho
+  unfold RefAlloc.newInt RefAlloc.newAtom at h
   split at h
-  · cases h
-  · cases h; simp [atomCount, pairCount, heapSize]
+  · exact absurd h (by simp [Refines])
+  · split at h
+    · exact absurd h (by simp [Refines])
+    · obtain ⟨_, ht, hv, hI', _⟩ := h
+      have hat : isAtomPtr p = true := by
+        cases p with
+        | pair i =>
+          obtain ⟨l, r, hlr⟩ := treeOf_valid_pair a' hI' i hv
+          rw [hlr] at ht; cases ht
+        | _ => rfl
+      have hb : nodeBytes a' p = encodeInt v := by
+        have := treeOf_atom a' p hat
+        rw [ht] at this
+        injection this with this
+        exact this.symm
+      rw [atom_ok a' p hI' hv hat, number_ok a' p hI' hv hat, hb, decodeInt_encodeInt]
+      exact ⟨rfl, rfl⟩
+
+/-- **`new_u64`** stores the minimal encoding and reads back as the same value -/
+theorem new_u64_enc (a : Alloc) (v : Nat) (hI : Inv a) (hv : v < 2 ^ 64) (p : Ptr) (a' : Alloc)
+    (h : newU64 a v = (.ok p, a')) : atom a' p = .ok (encodeInt (v : Int)) ∧ number a' p = .ok (v : Int) :=
+  int_stored a v _ (newU64_refines a v hI hv) p a' h
+
+/-- **`new_i64`** -/
+theorem new_i64_enc (a : Alloc) (v : Int) (hI : Inv a) (h1 : -(2 : Int) ^ 63 ≤ v) (h2 : v < (2 : Int) ^ 63)
+    (p : Ptr) (a' : Alloc) (h : newI64 a v = (.ok p, a')) :
+    atom a' p = .ok (encodeInt v) ∧ number a' p = .ok v :=
+  int_stored a v _ (newI64_refines a v hI h1 h2) p a' h
+
+/-- **`new_number`** (num-bigint's `to_signed_bytes_be` + the leading-zero stripping loop; the
+malachite variant has the same body) -/
+theorem new_number_enc (a : Alloc) (v : Int) (hI : Inv a) (p : Ptr) (a' : Alloc)
+    (h : newNumber a v = (.ok p, a')) : atom a' p = .ok (encodeInt v) ∧ number a' p = .ok v :=
+  int_stored a v _ (newNumber_refines a v hI) p a' h
+
+/-- **`new_small_number`** -/
+theorem new_small_number_enc (a : Alloc) (v : Nat) (hI : Inv a) (hv : v < 2 ^ Gen.nodePtrIdxBits) (p : Ptr)
+    (a' : Alloc) (h : newSmallNumber a v = (.ok p, a')) :
+    atom a' p = .ok (encodeInt (v : Int)) ∧ number a' p = .ok (v : Int) :=
+  int_stored a v _ (newSmallNumber_refines a v hI (by unfold idxMask; omega)) p a' h
+
+/-- the byte-level transcription of the encoders agrees with the specification for every integer -/
+theorem encoders_agree (v : Int) :
+    stripLeadingZeros (toSignedBytesBE v) = encodeInt v ∧
+    (0 ≤ v → v < (2 : Int) ^ 64 → u64Bytes v.toNat = encodeInt v) ∧
+    (-(2 : Int) ^ 63 ≤ v → v < 0 → i64NegBytes v = encodeInt v) := by
+  refine ⟨strip_toSigned v, fun h0 h1 => ?_, fun h0 h1 => i64NegBytes_enc v h0 h1⟩
+  have := u64Bytes_enc v.toNat (by omega)
+  rwa [Int.toNat_of_nonneg h0] at this
 
 end Clvm.Props.C14
